@@ -206,19 +206,21 @@ Definition callback (c : cfg) (regcmds : list cmd) (k : link) : link * xres :=
   | other => other
   end.
 
-(* lookupPeer.Command(cmd); [None] is Command(nil) *)
-Definition command (c : cfg) (regcmds : list cmd) (cm : option cmd) (k : link) : link * xres :=
-  let '(k1, r) :=
-    if (k_state k =? st_connected)%Z then (k, XOk [])
-    else if negb (l_up k) then (k, XErr)                         (* Connect: refused *)
-    else match l_accept k with
-         | ARefuse :: r => (k <| l_accept := r |>, XErr)
-         | AClose :: r =>
-             callback c regcmds (k <| l_accept := r |> <| k_state := st_connected |> <| k_inbuf := [] |>)
-         | [] =>
-             callback c regcmds (k <| k_state := st_connected |> <| k_inbuf := [] |>
-                                   <| l_alive := true |> <| l_regs := [] |>)
-         end in
+(* lookupPeer.Command(cmd); [None] is Command(nil).  First half: connect if needed *)
+Definition connect (c : cfg) (regcmds : list cmd) (k : link) : link * xres :=
+  if (k_state k =? st_connected)%Z then (k, XOk [])
+  else if negb (l_up k) then (k, XErr)                           (* Connect: refused *)
+  else match l_accept k with
+       | ARefuse :: r => (k <| l_accept := r |>, XErr)
+       | AClose :: r =>
+           callback c regcmds (k <| l_accept := r |> <| k_state := st_connected |> <| k_inbuf := [] |>)
+       | [] =>
+           callback c regcmds (k <| k_state := st_connected |> <| k_inbuf := [] |>
+                                 <| l_alive := true |> <| l_regs := [] |>)
+       end.
+
+(* second half: the round trip itself *)
+Definition finish (c : cfg) (cm : option cmd) (k1 : link) (r : xres) : link * xres :=
   match r with
   | XOk _ =>
       if (k_state k1 =? st_connected)%Z then
@@ -226,6 +228,9 @@ Definition command (c : cfg) (regcmds : list cmd) (cm : option cmd) (k : link) :
       else (k1, XErr)                                            (* "connectCallback() failed" *)
   | other => (k1, other)
   end.
+
+Definition command (c : cfg) (regcmds : list cmd) (cm : option cmd) (k : link) : link * xres :=
+  let p := connect c regcmds k in finish c cm (fst p) (snd p).
 
 (* ------------------------------------------------------------------ nsqd objects *)
 (* identity and lifecycle of a Topic / Channel object ... *)
